@@ -1,0 +1,391 @@
+//go:build verif
+
+// Contracts for optics (properties C01, C02, C04). Comment-only file: see /verif/DESIGN.md section 2.1.
+// Assembled by /verif/tools/gen_optics_contracts.py (hand-written part + positional ShapeN part).
+
+package optics
+
+//@ fileprops C04
+
+// A lens is a pair of abstract functions get : S -> A and put : S x A -> S of the instance.
+// Get reads through the pointer and changes nothing; Put replaces *s by put(*s, a), changes
+// nothing else, and returns the same pointer.
+//@ interface Lens
+//@   ghostmethod get(s S) : A
+//@   ghostmethod put(s S, a A) : S
+//@   method Get
+//@     requires $1 != nil
+//@     ensures reads_focus: result == self.get(deref($1))
+//@   method Put
+//@     requires $1 != nil
+//@     modifies deref($1)
+//@     ensures same_pointer: result == $1
+//@     ensures writes_focus: deref($1) == self.put(old(deref($1)), $2)
+
+// a map lens touches only its key (store/select on the map)
+//@ type *lensM implements Lens
+//@   model get(self, s) = s[self.key]
+//@   model put(self, s, a) = store(s, self.key, a)
+
+// Join focuses the nested field: get = get_b . get_a ; put writes b inside a inside s
+//@ type join implements Lens
+//@   objinv self.a != nil && self.b != nil
+//@   model get(self, s) = self.b.get(self.a.get(s))
+//@   model put(self, s, v) = self.a.put(s, self.b.put(self.a.get(s), v))
+
+// Getter never writes
+//@ type fmap implements Lens
+//@   objinv self.lens != nil
+//@   model get(self, s) = app(self.f, self.lens.get(s))
+//@   model put(self, s, v) = s
+
+// Setter writes exactly the converted value
+//@ type cmap implements Lens
+//@   objinv self.lens != nil
+//@   model get(self, s) = zero(B)
+//@   model put(self, s, v) = self.lens.put(s, app(self.f, v))
+
+// BiMap: get converts forth, put converts back
+//@ type codec implements Lens
+//@   objinv self.lens != nil
+//@   model get(self, s) = app(self.fmap, self.lens.get(s))
+//@   model put(self, s, v) = self.lens.put(s, app(self.cmap, v))
+
+//@ func NewLensM
+//@   ensures result != nil
+//@   ensures forall s S :: result.get(s) == s[key]
+//@   ensures touches_only_its_key: forall s S, v A :: result.put(s, v) == store(s, key, v)
+
+//@ func Join
+//@   requires a != nil && b != nil
+//@   ensures result != nil
+//@   ensures forall s S :: result.get(s) == b.get(a.get(s))
+//@   ensures forall s S, v B :: result.put(s, v) == a.put(s, b.put(a.get(s), v))
+
+//@ func Getter
+//@   requires lens != nil
+//@   ensures result != nil
+//@   ensures forall s S :: result.get(s) == app(f, lens.get(s))
+//@   ensures never_writes: forall s S, v B :: result.put(s, v) == s
+
+//@ func Setter
+//@   requires lens != nil
+//@   ensures result != nil
+//@   ensures writes_converted: forall s S, v B :: result.put(s, v) == lens.put(s, app(f, v))
+
+//@ func BiMap
+//@   requires lens != nil
+//@   ensures result != nil
+//@   ensures forall s S :: result.get(s) == app(fmap, lens.get(s))
+//@   ensures forall s S, v B :: result.put(s, v) == lens.put(s, app(cmap, v))
+
+// Isomorphism: Forward copies the source focus into the target focus; Inverse the reverse
+//@ interface Isomorphism
+//@   ghostmethod fwd(s S, t T) : T
+//@   ghostmethod inv(t T, s S) : S
+//@   method Forward
+//@     requires $1 != nil && $2 != nil
+//@     modifies deref($2)
+//@     ensures target_gets_source_focus: deref($2) == self.fwd(deref($1), old(deref($2)))
+//@   method Inverse
+//@     requires $1 != nil && $2 != nil
+//@     modifies deref($2)
+//@     ensures source_gets_target_focus: deref($2) == self.inv(deref($1), old(deref($2)))
+
+//@ type iso implements Isomorphism
+//@   objinv self.sa != nil && self.ta != nil
+//@   model fwd(self, s, t) = self.ta.put(t, self.sa.get(s))
+//@   model inv(self, t, s) = self.sa.put(s, self.ta.get(t))
+
+// a Morphism applies its isos in order, skipping nil entries
+//@ type morphism implements Isomorphism
+//@   model fwd(self, s, t) = mfwd(self, s, t)
+//@   model inv(self, t, s) = minv(self, t, s)
+
+//@ func (morphism) Forward
+//@   opt via=subtype
+//@   loop 0 invariant deref(s) == old(deref(s)) && mfwd(rest, deref(s), deref(t)) == mfwd(range, old(deref(s)), old(deref(t)))
+//@ func (morphism) Inverse
+//@   opt via=subtype
+//@   loop 0 invariant deref(t) == old(deref(t)) && minv(rest, deref(t), deref(s)) == minv(range, old(deref(t)), old(deref(s)))
+
+//@ func Iso
+//@   requires sa != nil && ta != nil
+//@   ensures result != nil
+//@   ensures forall s S, t T :: result.fwd(s, t) == ta.put(t, sa.get(s))
+//@   ensures forall s S, t T :: result.inv(t, s) == sa.put(s, ta.get(t))
+
+//@ func Morphism
+//@   ensures result != nil
+//@   ensures forall s S, t T :: result.fwd(s, t) == mfwd(seq, s, t)
+//@   ensures forall s S, t T :: result.inv(t, s) == minv(seq, t, s)
+
+// ---- property-level lemmas over the models above (pure algebra over get/put) ----
+//@ smt (declare-sort LS 0)
+//@ smt (declare-sort LA 0)
+//@ smt (declare-sort LB 0)
+//@ smt (declare-sort LT 0)
+//@ smt (declare-fun geta (LS) LA)
+//@ smt (declare-fun puta (LS LA) LS)
+//@ smt (declare-fun getb (LA) LB)
+//@ smt (declare-fun putb (LA LB) LA)
+//@ smt (declare-fun gett (LT) LA)
+//@ smt (declare-fun putt (LT LA) LT)
+//@ smt (declare-fun fm (LA) LB)
+//@ smt (declare-fun cm (LB) LA)
+//@ smt (define-fun lawfulA () Bool (and (forall ((s LS)) (= (puta s (geta s)) s)) (forall ((s LS) (a LA)) (= (geta (puta s a)) a)) (forall ((s LS) (a LA) (b LA)) (= (puta (puta s a) b) (puta s b)))))
+//@ smt (define-fun lawfulB () Bool (and (forall ((s LA)) (= (putb s (getb s)) s)) (forall ((s LA) (a LB)) (= (getb (putb s a)) a)) (forall ((s LA) (a LB) (b LB)) (= (putb (putb s a) b) (putb s b)))))
+//@ smt (define-fun lawfulT () Bool (and (forall ((s LT)) (= (putt s (gett s)) s)) (forall ((s LT) (a LA)) (= (gett (putt s a)) a)) (forall ((s LT) (a LA) (b LA)) (= (putt (putt s a) b) (putt s b)))))
+//@ rawlemma join_getput: (=> (and lawfulA lawfulB) (forall ((s LS)) (= (puta s (putb (geta s) (getb (geta s)))) s)))
+//@ rawlemma join_putget: (=> (and lawfulA lawfulB) (forall ((s LS) (v LB)) (= (getb (geta (puta s (putb (geta s) v)))) v)))
+//@ rawlemma join_putput: (=> (and lawfulA lawfulB) (forall ((s LS) (v LB) (w LB)) (= (puta (puta s (putb (geta s) v)) (putb (geta (puta s (putb (geta s) v))) w)) (puta s (putb (geta s) w)))))
+//@ rawlemma bimap_getput: (=> (and lawfulA (forall ((a LA)) (= (cm (fm a)) a)) (forall ((b LB)) (= (fm (cm b)) b))) (forall ((s LS)) (= (puta s (cm (fm (geta s)))) s)))
+//@ rawlemma bimap_putget: (=> (and lawfulA (forall ((a LA)) (= (cm (fm a)) a)) (forall ((b LB)) (= (fm (cm b)) b))) (forall ((s LS) (v LB)) (= (fm (geta (puta s (cm v)))) v)))
+//@ rawlemma bimap_putput: (=> (and lawfulA (forall ((a LA)) (= (cm (fm a)) a)) (forall ((b LB)) (= (fm (cm b)) b))) (forall ((s LS) (v LB) (w LB)) (= (puta (puta s (cm v)) (cm w)) (puta s (cm w)))))
+//@ rawlemma iso_roundtrip_restores_source: (=> (and lawfulA lawfulT) (forall ((s LS) (t LT)) (= (puta s (gett (putt t (geta s)))) s)))
+//@ rawlemma iso_roundtrip_target_focus: (=> (and lawfulA lawfulT) (forall ((s LS) (t LT)) (= (gett (putt t (geta s))) (geta s))))
+
+
+//@ interface Lens2
+//@   ghostmethod get1(s S) : A
+//@   ghostmethod get2(s S) : B
+//@   ghostmethod put(s S, v1 A, v2 B) : S
+//@   method Get
+//@     requires $1 != nil
+//@     ensures reads_component_1: result == self.get1(deref($1))
+//@     ensures reads_component_2: result1 == self.get2(deref($1))
+//@   method Put
+//@     requires $1 != nil
+//@     modifies deref($1)
+//@     ensures same_pointer: result == $1
+//@     ensures writes_components: deref($1) == self.put(old(deref($1)), $2, $3)
+
+//@ type shape2 implements Lens2
+//@   objinv self.a != nil && self.b != nil
+//@   model get1(self, s) = self.a.get(s)
+//@   model get2(self, s) = self.b.get(s)
+//@   model put(self, s, v1, v2) = self.a.put(self.b.put(s, v2), v1)
+
+//@ interface Lens3
+//@   ghostmethod get1(s S) : A
+//@   ghostmethod get2(s S) : B
+//@   ghostmethod get3(s S) : C
+//@   ghostmethod put(s S, v1 A, v2 B, v3 C) : S
+//@   method Get
+//@     requires $1 != nil
+//@     ensures reads_component_1: result == self.get1(deref($1))
+//@     ensures reads_component_2: result1 == self.get2(deref($1))
+//@     ensures reads_component_3: result2 == self.get3(deref($1))
+//@   method Put
+//@     requires $1 != nil
+//@     modifies deref($1)
+//@     ensures same_pointer: result == $1
+//@     ensures writes_components: deref($1) == self.put(old(deref($1)), $2, $3, $4)
+
+//@ type shape3 implements Lens3
+//@   objinv self.a != nil && self.b != nil && self.c != nil
+//@   model get1(self, s) = self.a.get(s)
+//@   model get2(self, s) = self.b.get(s)
+//@   model get3(self, s) = self.c.get(s)
+//@   model put(self, s, v1, v2, v3) = self.a.put(self.b.put(self.c.put(s, v3), v2), v1)
+
+//@ interface Lens4
+//@   ghostmethod get1(s S) : A
+//@   ghostmethod get2(s S) : B
+//@   ghostmethod get3(s S) : C
+//@   ghostmethod get4(s S) : D
+//@   ghostmethod put(s S, v1 A, v2 B, v3 C, v4 D) : S
+//@   method Get
+//@     requires $1 != nil
+//@     ensures reads_component_1: result == self.get1(deref($1))
+//@     ensures reads_component_2: result1 == self.get2(deref($1))
+//@     ensures reads_component_3: result2 == self.get3(deref($1))
+//@     ensures reads_component_4: result3 == self.get4(deref($1))
+//@   method Put
+//@     requires $1 != nil
+//@     modifies deref($1)
+//@     ensures same_pointer: result == $1
+//@     ensures writes_components: deref($1) == self.put(old(deref($1)), $2, $3, $4, $5)
+
+//@ type shape4 implements Lens4
+//@   objinv self.a != nil && self.b != nil && self.c != nil && self.d != nil
+//@   model get1(self, s) = self.a.get(s)
+//@   model get2(self, s) = self.b.get(s)
+//@   model get3(self, s) = self.c.get(s)
+//@   model get4(self, s) = self.d.get(s)
+//@   model put(self, s, v1, v2, v3, v4) = self.a.put(self.b.put(self.c.put(self.d.put(s, v4), v3), v2), v1)
+
+//@ interface Lens5
+//@   ghostmethod get1(s S) : A
+//@   ghostmethod get2(s S) : B
+//@   ghostmethod get3(s S) : C
+//@   ghostmethod get4(s S) : D
+//@   ghostmethod get5(s S) : E
+//@   ghostmethod put(s S, v1 A, v2 B, v3 C, v4 D, v5 E) : S
+//@   method Get
+//@     requires $1 != nil
+//@     ensures reads_component_1: result == self.get1(deref($1))
+//@     ensures reads_component_2: result1 == self.get2(deref($1))
+//@     ensures reads_component_3: result2 == self.get3(deref($1))
+//@     ensures reads_component_4: result3 == self.get4(deref($1))
+//@     ensures reads_component_5: result4 == self.get5(deref($1))
+//@   method Put
+//@     requires $1 != nil
+//@     modifies deref($1)
+//@     ensures same_pointer: result == $1
+//@     ensures writes_components: deref($1) == self.put(old(deref($1)), $2, $3, $4, $5, $6)
+
+//@ type shape5 implements Lens5
+//@   objinv self.a != nil && self.b != nil && self.c != nil && self.d != nil && self.e != nil
+//@   model get1(self, s) = self.a.get(s)
+//@   model get2(self, s) = self.b.get(s)
+//@   model get3(self, s) = self.c.get(s)
+//@   model get4(self, s) = self.d.get(s)
+//@   model get5(self, s) = self.e.get(s)
+//@   model put(self, s, v1, v2, v3, v4, v5) = self.a.put(self.b.put(self.c.put(self.d.put(self.e.put(s, v5), v4), v3), v2), v1)
+
+//@ interface Lens6
+//@   ghostmethod get1(s S) : A
+//@   ghostmethod get2(s S) : B
+//@   ghostmethod get3(s S) : C
+//@   ghostmethod get4(s S) : D
+//@   ghostmethod get5(s S) : E
+//@   ghostmethod get6(s S) : F
+//@   ghostmethod put(s S, v1 A, v2 B, v3 C, v4 D, v5 E, v6 F) : S
+//@   method Get
+//@     requires $1 != nil
+//@     ensures reads_component_1: result == self.get1(deref($1))
+//@     ensures reads_component_2: result1 == self.get2(deref($1))
+//@     ensures reads_component_3: result2 == self.get3(deref($1))
+//@     ensures reads_component_4: result3 == self.get4(deref($1))
+//@     ensures reads_component_5: result4 == self.get5(deref($1))
+//@     ensures reads_component_6: result5 == self.get6(deref($1))
+//@   method Put
+//@     requires $1 != nil
+//@     modifies deref($1)
+//@     ensures same_pointer: result == $1
+//@     ensures writes_components: deref($1) == self.put(old(deref($1)), $2, $3, $4, $5, $6, $7)
+
+//@ type shape6 implements Lens6
+//@   objinv self.a != nil && self.b != nil && self.c != nil && self.d != nil && self.e != nil && self.f != nil
+//@   model get1(self, s) = self.a.get(s)
+//@   model get2(self, s) = self.b.get(s)
+//@   model get3(self, s) = self.c.get(s)
+//@   model get4(self, s) = self.d.get(s)
+//@   model get5(self, s) = self.e.get(s)
+//@   model get6(self, s) = self.f.get(s)
+//@   model put(self, s, v1, v2, v3, v4, v5, v6) = self.a.put(self.b.put(self.c.put(self.d.put(self.e.put(self.f.put(s, v6), v5), v4), v3), v2), v1)
+
+//@ interface Lens7
+//@   ghostmethod get1(s S) : A
+//@   ghostmethod get2(s S) : B
+//@   ghostmethod get3(s S) : C
+//@   ghostmethod get4(s S) : D
+//@   ghostmethod get5(s S) : E
+//@   ghostmethod get6(s S) : F
+//@   ghostmethod get7(s S) : G
+//@   ghostmethod put(s S, v1 A, v2 B, v3 C, v4 D, v5 E, v6 F, v7 G) : S
+//@   method Get
+//@     requires $1 != nil
+//@     ensures reads_component_1: result == self.get1(deref($1))
+//@     ensures reads_component_2: result1 == self.get2(deref($1))
+//@     ensures reads_component_3: result2 == self.get3(deref($1))
+//@     ensures reads_component_4: result3 == self.get4(deref($1))
+//@     ensures reads_component_5: result4 == self.get5(deref($1))
+//@     ensures reads_component_6: result5 == self.get6(deref($1))
+//@     ensures reads_component_7: result6 == self.get7(deref($1))
+//@   method Put
+//@     requires $1 != nil
+//@     modifies deref($1)
+//@     ensures same_pointer: result == $1
+//@     ensures writes_components: deref($1) == self.put(old(deref($1)), $2, $3, $4, $5, $6, $7, $8)
+
+//@ type shape7 implements Lens7
+//@   objinv self.a != nil && self.b != nil && self.c != nil && self.d != nil && self.e != nil && self.f != nil && self.g != nil
+//@   model get1(self, s) = self.a.get(s)
+//@   model get2(self, s) = self.b.get(s)
+//@   model get3(self, s) = self.c.get(s)
+//@   model get4(self, s) = self.d.get(s)
+//@   model get5(self, s) = self.e.get(s)
+//@   model get6(self, s) = self.f.get(s)
+//@   model get7(self, s) = self.g.get(s)
+//@   model put(self, s, v1, v2, v3, v4, v5, v6, v7) = self.a.put(self.b.put(self.c.put(self.d.put(self.e.put(self.f.put(self.g.put(s, v7), v6), v5), v4), v3), v2), v1)
+
+//@ interface Lens8
+//@   ghostmethod get1(s S) : A
+//@   ghostmethod get2(s S) : B
+//@   ghostmethod get3(s S) : C
+//@   ghostmethod get4(s S) : D
+//@   ghostmethod get5(s S) : E
+//@   ghostmethod get6(s S) : F
+//@   ghostmethod get7(s S) : G
+//@   ghostmethod get8(s S) : H
+//@   ghostmethod put(s S, v1 A, v2 B, v3 C, v4 D, v5 E, v6 F, v7 G, v8 H) : S
+//@   method Get
+//@     requires $1 != nil
+//@     ensures reads_component_1: result == self.get1(deref($1))
+//@     ensures reads_component_2: result1 == self.get2(deref($1))
+//@     ensures reads_component_3: result2 == self.get3(deref($1))
+//@     ensures reads_component_4: result3 == self.get4(deref($1))
+//@     ensures reads_component_5: result4 == self.get5(deref($1))
+//@     ensures reads_component_6: result5 == self.get6(deref($1))
+//@     ensures reads_component_7: result6 == self.get7(deref($1))
+//@     ensures reads_component_8: result7 == self.get8(deref($1))
+//@   method Put
+//@     requires $1 != nil
+//@     modifies deref($1)
+//@     ensures same_pointer: result == $1
+//@     ensures writes_components: deref($1) == self.put(old(deref($1)), $2, $3, $4, $5, $6, $7, $8, $9)
+
+//@ type shape8 implements Lens8
+//@   objinv self.a != nil && self.b != nil && self.c != nil && self.d != nil && self.e != nil && self.f != nil && self.g != nil && self.h != nil
+//@   model get1(self, s) = self.a.get(s)
+//@   model get2(self, s) = self.b.get(s)
+//@   model get3(self, s) = self.c.get(s)
+//@   model get4(self, s) = self.d.get(s)
+//@   model get5(self, s) = self.e.get(s)
+//@   model get6(self, s) = self.f.get(s)
+//@   model get7(self, s) = self.g.get(s)
+//@   model get8(self, s) = self.h.get(s)
+//@   model put(self, s, v1, v2, v3, v4, v5, v6, v7, v8) = self.a.put(self.b.put(self.c.put(self.d.put(self.e.put(self.f.put(self.g.put(self.h.put(s, v8), v7), v6), v5), v4), v3), v2), v1)
+
+//@ interface Lens9
+//@   ghostmethod get1(s S) : A
+//@   ghostmethod get2(s S) : B
+//@   ghostmethod get3(s S) : C
+//@   ghostmethod get4(s S) : D
+//@   ghostmethod get5(s S) : E
+//@   ghostmethod get6(s S) : F
+//@   ghostmethod get7(s S) : G
+//@   ghostmethod get8(s S) : H
+//@   ghostmethod get9(s S) : I
+//@   ghostmethod put(s S, v1 A, v2 B, v3 C, v4 D, v5 E, v6 F, v7 G, v8 H, v9 I) : S
+//@   method Get
+//@     requires $1 != nil
+//@     ensures reads_component_1: result == self.get1(deref($1))
+//@     ensures reads_component_2: result1 == self.get2(deref($1))
+//@     ensures reads_component_3: result2 == self.get3(deref($1))
+//@     ensures reads_component_4: result3 == self.get4(deref($1))
+//@     ensures reads_component_5: result4 == self.get5(deref($1))
+//@     ensures reads_component_6: result5 == self.get6(deref($1))
+//@     ensures reads_component_7: result6 == self.get7(deref($1))
+//@     ensures reads_component_8: result7 == self.get8(deref($1))
+//@     ensures reads_component_9: result8 == self.get9(deref($1))
+//@   method Put
+//@     requires $1 != nil
+//@     modifies deref($1)
+//@     ensures same_pointer: result == $1
+//@     ensures writes_components: deref($1) == self.put(old(deref($1)), $2, $3, $4, $5, $6, $7, $8, $9, $10)
+
+//@ type shape9 implements Lens9
+//@   objinv self.a != nil && self.b != nil && self.c != nil && self.d != nil && self.e != nil && self.f != nil && self.g != nil && self.h != nil && self.i != nil
+//@   model get1(self, s) = self.a.get(s)
+//@   model get2(self, s) = self.b.get(s)
+//@   model get3(self, s) = self.c.get(s)
+//@   model get4(self, s) = self.d.get(s)
+//@   model get5(self, s) = self.e.get(s)
+//@   model get6(self, s) = self.f.get(s)
+//@   model get7(self, s) = self.g.get(s)
+//@   model get8(self, s) = self.h.get(s)
+//@   model get9(self, s) = self.i.get(s)
+//@   model put(self, s, v1, v2, v3, v4, v5, v6, v7, v8, v9) = self.a.put(self.b.put(self.c.put(self.d.put(self.e.put(self.f.put(self.g.put(self.h.put(self.i.put(s, v9), v8), v7), v6), v5), v4), v3), v2), v1)
